@@ -9,7 +9,7 @@
 
 namespace sim {
 
-struct RefToken { int code; std::string text; };
+struct RefToken { int code; std::string text; size_t pos = 0, end = 0; };  // [pos,end) byte range in the text
 
 // Token codes (tokenizer.h)
 enum {
